@@ -1,6 +1,6 @@
-"""Extension checks X01-X03 (not among the listed properties; they grow the specification's coverage of the system):
+"""Extension checks X01-X04 (not among the listed properties; they grow the specification's coverage of the system):
 X01 syslog level writers (spec/aux/Syslog.tla), X02 LevelHook dispatch (LevelHook.tla), X03 loggers carried in a
-context.Context (CtxStore.tla). TLC enumerates every history of the contract within a bound, the hist player runs
+context.Context (CtxStore.tla), X04 the text form of levels (LevelNames.tla). TLC enumerates every history of the contract within a bound, the hist player runs
 them on the real code through the public API, AuxTrace.tla validates the recordings. Evidence: ext/evidence/<id>.json."""
 import json
 import os
@@ -11,6 +11,7 @@ from vlib import (Inconclusive, Scratch, Verdict, copy_specs, go_build, log, par
 FAMILY = "aux"
 PARAMS = {"X01": ("Syslog", "syslog", "CONSTANTS MaxOps = %d\n", (1, 2), "Emit AtMostOne"),
           "X02": ("LevelHook", "levelhook", "", (0, 0), "Emit"),
+          "X04": ("LevelNames", "levelnames", "", (0, 0), "Emit RoundTrip Injective StrRoundTrip FailIsNoLevel DecimalOfNamed"),
           "X03": ("CtxStore", "ctxstore", "CONSTANTS MaxOps = %d\n", (4, 5), "Emit DisabledNeverFirst")}
 
 
